@@ -111,10 +111,10 @@ def build(case):
             due_time=t.get("due", -1),
             auto_task=bool(t.get("auto", False)),
             fixing_allocating_worker_id_list=(None if t.get("fixw") is None else ["w%d" % j for j in t["fixw"]]),
-            fixing_allocating_facility_id_list=(None if t.get("fixf") is None else ["f%d" % j for j in t["fixf"]]),
-            workplace_priority_rule=WorkplacePriorityRuleMode(t.get("prule", 0)),
-            worker_priority_rule=ResourcePriorityRuleMode(t.get("wrule", -1)),
-            facility_priority_rule=ResourcePriorityRuleMode(t.get("frule", 0)),
+            fixing_allocating_facility_id_list=(None if t.get("fixf") is None else [("w%d" if case.get("same_ids") else "f%d") % j for j in t["fixf"]]),
+            workplace_priority_rule=(int(t.get("prule", 0)) if case.get("int_rules") else WorkplacePriorityRuleMode(t.get("prule", 0))),
+            worker_priority_rule=(int(t.get("wrule", -1)) if case.get("int_rules") else ResourcePriorityRuleMode(t.get("wrule", -1))),
+            facility_priority_rule=(int(t.get("frule", 0)) if case.get("int_rules") else ResourcePriorityRuleMode(t.get("frule", 0))),
         )
         if t.get("sub"):
             obj = BaseSubProjectTask(**kw)
@@ -165,7 +165,7 @@ def build(case):
         for f in wp.get("facs", []):
             gi = len(facs)
             fc = BaseFacility(
-                "fn%d" % f.get("name", gi), ID="f%d" % gi, workplace_id=(None if case.get("adopt_ids") else "wp%d" % pi),
+                "fn%d" % f.get("name", gi), ID=("w%d" if case.get("same_ids") else "f%d") % gi, workplace_id=(None if case.get("adopt_ids") else "wp%d" % pi),
                 cost_per_time=fl(f.get("cost", "0")), solo_working=bool(f.get("solo", False)),
                 workamount_skill_mean_map={"n%s" % k: fl(v) for k, v in f.get("skills", {}).items()},
                 absence_time_list=list(f.get("abs", [])),
@@ -207,6 +207,8 @@ def idx_of(prefix, s):
         return None
     if prefix == "team" and s.startswith("wp"):        # cases with same_ids: team i and workplace i share the ID "wp<i>"
         return int(s[2:])
+    if prefix == "f" and s.startswith("w") and not s.startswith("wp"):     # ... and facility i and worker i the ID "w<i>"
+        return int(s[1:])
     assert s.startswith(prefix), (prefix, s)
     return int(s[len(prefix):])
 
@@ -319,12 +321,13 @@ class HardCrash(BaseException):
 # ------------------------------------------------------------- operations
 def sim_kwargs(op):
     return dict(
-        task_priority_rule=TaskPriorityRuleMode(op.get("rule", 0)),
+        task_priority_rule=(int(op.get("rule", 0)) if op.get("int_rule") else TaskPriorityRuleMode(op.get("rule", 0))),
         absence_time_list=list(op.get("abs", [])),
         perform_auto_task_while_absence_time=bool(op.get("auto_abs", False)),
         initialize_state_info=bool(op.get("init_state", True)),
         initialize_log_info=bool(op.get("init_log", True)),
-        max_time=int(op.get("max_time", 200)),
+        max_time=(int(op.get("max_time", 200)) - 0.5 if op.get("max_time_half") and int(op.get("max_time", 200)) >= 1 else int(op.get("max_time", 200))),
+        **({"error_tol": float(op["error_tol"])} if "error_tol" in op else {}),
         **({"unit_time": int(op["unit_time"])} if op.get("unit_time", 1) != 1 else {}),
     )
 
@@ -370,7 +373,10 @@ def run_ops(case, want_snaps=True, ops=None, built=None):
             with warnings.catch_warnings(record=True) as wl:
                 warnings.simplefilter("always")
                 if name == "simulate":
-                    p.simulate(**sim_kwargs_for(op))
+                    kw_ = sim_kwargs_for(op)
+                    if op.get("alias_abs"):
+                        kw_["absence_time_list"] = p.absence_time_list      # the project's own list object as the argument
+                    p.simulate(**kw_)
                 elif name == "simulate_default":
                     # every optional argument left at its default value
                     p.simulate(max_time=int(op.get("max_time", 200)))
@@ -379,11 +385,35 @@ def run_ops(case, want_snaps=True, ops=None, built=None):
                     rec["struct_before_idx"] = structure_idx(p, len(case["tasks"]))
                     rec["keep"] = (list(p.workflow.task_list),)  # keep ids alive
                     try:
-                        p.backward_simulate(considering_due_time_of_tail_tasks=bool(op.get("due", False)),
-                                            reverse_log_information=bool(op.get("revlog", True)), **sim_kwargs(op))
+                        extra_ = {"task_performed_mode": "single-worker"} if op.get("bad_mode") else {}
+                        try:
+                            p.backward_simulate(considering_due_time_of_tail_tasks=bool(op.get("due", False)),
+                                                reverse_log_information=bool(op.get("revlog", True)), **extra_, **sim_kwargs(op))
+                        except Exception as e_:
+                            if op.get("bad_mode") and "task_performed_mode" in str(e_):
+                                raise Crash("refused task_performed_mode")       # the expected refusal; clean-up is judged below
+                            raise
                     finally:
                         rec["struct_after"] = structure(p)
                         rec["struct_after_idx"] = structure_idx(p, len(case["tasks"]))
+                elif name == "report":
+                    # read-only reporting calls: Gantt data of every level and state queries
+                    p.workflow.create_data_for_gantt_plotly(p.init_datetime, p.unit_timedelta)
+                    p.product.create_data_for_gantt_plotly(p.init_datetime, p.unit_timedelta)
+                    p.organization.create_data_for_gantt_plotly(p.init_datetime, p.unit_timedelta)
+                    for t_ in p.workflow.task_list:
+                        t_.get_time_list_for_gannt_chart()
+                    for c_ in p.product.component_list:
+                        c_.get_time_list_for_gannt_chart()
+                    for tm_ in p.organization.team_list:
+                        for w_ in tm_.worker_list:
+                            w_.get_time_list_for_gannt_chart()
+                    for wp_ in p.organization.workplace_list:
+                        for f_ in wp_.facility_list:
+                            f_.get_time_list_for_gannt_chart()
+                    if p.time > 0:
+                        p.workflow.extract_working_task_list([0, p.time - 1])
+                        p.product.extract_working_component_list([0])
                 elif name == "initialize":
                     p.initialize(state_info=bool(op.get("state", True)), log_info=bool(op.get("log", True)))
                 elif name == "reverse_log":
@@ -391,7 +421,7 @@ def run_ops(case, want_snaps=True, ops=None, built=None):
                 elif name == "remove_absence":
                     p.remove_absence_time_list()
                 elif name == "insert_absence":
-                    p.insert_absence_time_list(list(op["list"]))
+                    p.insert_absence_time_list(tuple(op["list"]) if op.get("as_tuple") else list(op["list"]))
                 elif name == "json":
                     fd, path = tempfile.mkstemp(suffix=".json", dir=C.WORK)
                     os.close(fd)
